@@ -4,30 +4,60 @@ from __future__ import annotations
 from common import InfraError
 import sched_run
 
+SEARCH_ONLY_NOTE = ("primitives without a Lean model (differential execution only): every op of harness/stream.py "
+                    "not in obs_sem.Observer.MODELLED")
+
 
 def run(ctx):
     ctx.rule = ("pool program (harness/pool.py, + constant-perturbed variants) x every (primitive, cursor, args) "
-                "attempt of harness/stream.py; an evaluation = one accepted rewrite executed before/after in the "
-                "Lean reference interpreter on valid inputs; distinct = (program, op, cursor path, args); "
-                "non-trivial = the original runs without tripping a monitor on at least one input")
-    broken = []
-    # TODO proofs
+                "attempt of harness/stream.py, depth-2 schedules sampled; an evaluation = one accepted rewrite "
+                "executed before/after in the Lean reference interpreter on valid inputs (random sizes, strided "
+                "windows, random buffer contents and configuration); distinct = (program, op, cursor path, args, "
+                "depth); non-trivial = the original runs without tripping a monitor on at least one input")
+    ctx.assumptions += [
+        "the exporter harness/export_ir.py maps LoopIR faithfully to ExoModel.Syntax (exercised by every run)",
+        "side conditions of the conditional theorems (bounds order, commutation, idempotence) are hypotheses; "
+        "that the real Check_* verdicts imply them is observed through the differential search, not proved",
+        "exec is invariant under renaming of bound symbols (the real primitives rename copies; the model compares "
+        "up to that renaming)",
+    ]
+    ctx.trusted += ["modelled, not verified: z3/pysmt and the effect analysis of new_eff.py / new_analysis_core.py",
+                    SEARCH_ONLY_NOTE]
+    broken = ctx.lean_obligations(["ExoModel.Props.C01"])
     recs = sched_run.run_stream(ctx, ["obs_sem"], nvariants=ctx.scale(1, 3),
-                                opts={"depth": ctx.scale(1, 2), "n_inputs": ctx.scale(3, 6)})
+                                opts={"depth": ctx.scale(2, 2), "n_inputs": ctx.scale(3, 6),
+                                      "depth2_procs": ctx.scale(3, 10), "depth2_attempts": ctx.scale(12, 40)})
+    shape = []
+    concrete_ops = set()
     for r in recs:
         if r["error"]:
             if r["error"].startswith("infra"):
                 raise InfraError(r["error"])
-            ctx.violation(f"stream:{r['name']}:worker-error", r["error"], {"program": r["name"], "src": r["src"]}, no_input=True)
+            ctx.violation(f"stream:{r['name'].split('~')[0]}:worker-error", r["error"],
+                          {"program": r["name"], "src": r["src"]}, no_input=True)
             continue
         for k, v in r["counts"].items():
             ctx.count(k, v)
         for s in r.get("samples", []):
             ctx.sample({"program": r["name"], **s})
+        ctx.distinct.update(r.get("distinct", []))
         for x in r["records"]:
             if x["kind"] == "mismatch":
+                concrete_ops.add(x["att"]["op"])
                 ctx.violation(x["key"], x["what"], x)
-            else:
+            elif x["kind"] == "shape-mismatch":
+                shape.append(x)
+            elif x["kind"] == "impure":
+                pass  # reported by C07
+            elif x["kind"] == "observer-exception":
                 ctx.violation(f"observer-exception:{x['att']['op']}", x["exc"], x, no_input=True)
+    for x in shape:
+        # the real output is not the rewrite the theorems talk about: correspondence A broke
+        ctx.violation(x["key"], x["what"] + " (model/real correspondence)", x,
+                      no_input=x["att"]["op"] not in concrete_ops)
     ctx.evaluations = ctx.counts.get("pairs-executed", 0)
-    ctx.distinct = set(range(ctx.counts.get("pairs-nontrivial", 0)))
+    ctx.extra["ops_accepted"] = {k.split(":", 1)[1]: v for k, v in ctx.counts.items() if k.startswith("accepted:")}
+    ctx.extra["ops_rejected"] = {k.split(":", 1)[1]: v for k, v in ctx.counts.items() if k.startswith("rejected:")}
+    if broken:
+        ctx.violation("obligations:" + broken[0][:60], f"proof obligations broken: {broken}",
+                      {"broken": broken}, no_input=not ctx.violations)
